@@ -87,7 +87,7 @@ class Driver:
         ch = Channel(cid)
         ch._set_transport(self.t)
         if established:                 # pre-placed channels (the state after a wrap-around) are established
-            ch.remote_chanid = self.remote_id()
+            ch._set_remote_channel(self.remote_id(), 1 << 20, 1 << 15)
         return ch
 
     def _put(self, x, obj):
@@ -175,6 +175,17 @@ class Driver:
         self.order = [y for y in self.order if y != x]
         self.outs.append(-1)
 
+    def local_close(self, x):
+        """The application closes channel x (Channel.close(): our EOF + CLOSE go out, the channel is marked closed).
+        Until the peer's CLOSE arrives the channel stays registered and owns its id: the model's state does not
+        change, so this op has no model counterpart."""
+        obj = self.keep.get(x)
+        if obj is not None:
+            try:
+                obj.close()
+            except Exception as e:  # noqa
+                self.problems.append(("close-raised", "Channel.close() raised", {"id": x, "exc": repr(e)}))
+
     def open_success(self, x):
         from paramiko.message import Message
         m = Message()
@@ -250,6 +261,8 @@ class Driver:
                                   {"at": self.where}))
         for k, op in enumerate(self.inner):
             self.apply(op, "%s/inner%d" % (self.where, k))
+        if getattr(self, "inner_fn", None) is not None:
+            self.inner_fn()
         self.collide_at_register = self.live_keys()
         return OPEN_SUCCEEDED if self.accept else OPEN_FAILED_ADMINISTRATIVELY_PROHIBITED
 
@@ -261,6 +274,8 @@ class Driver:
             self.local_open(where)
         elif op[0] == "close":
             self.close(op[1], op[2] if len(op) > 2 else 0)
+        elif op[0] == "lclose":
+            self.local_close(op[1])
         elif op[0] == "success":
             self.open_success(op[1])
         elif op[0] == "failure":
@@ -313,6 +328,9 @@ def gen_history(rng):
             return ("peer", rng.random() < 0.8, inner)
         pick = rng.choice([(c0 + rng.randrange(0, 30)) % M24, (c0 + rng.randrange(0, 6)) % M24,
                            (c0 + rng.randrange(0, 6)) % M24, rng.randrange(M24)])
+        if 0.70 <= r < 0.76 or (depth == 1 and r < 0.52):
+            # the application closes a channel; the peer's CLOSE is still outstanding
+            return ("lclose", pick)
         if r < 0.84:
             # close an id likely to be live (near c0) or a random one: _unlink_channel / peer CLOSE / loss
             return ("close", pick, rng.choice([0, 1, 1, 2]))
@@ -342,9 +360,9 @@ def run_history(c0, live0, ops):
         d.apply(op, "op%d" % k)
         if op[0] == "peer":
             flat.append(("PeerReserve",))
-            flat += [model_op(iop) for iop in op[2]]
+            flat += [model_op(iop) for iop in op[2] if iop[0] != "lclose"]
             flat.append(("PeerRegister", d.reserved) if op[1] else ("PeerReject", d.reserved))
-        else:
+        elif op[0] != "lclose":
             flat.append(model_op(op))
     d.finish()
     # order of outs: the driver appends the reserve's id, then inner outs, then -1 for the register/reject
@@ -389,6 +407,8 @@ def run(ctx):
         for pause_at in range(1, len(live0) + 2):
             for first, second in (("peer", "local"), ("local", "local"), ("local", "peer")):
                 check_race(ctx, c0, live0, pause_at, first, second)
+
+    abandon_runs(ctx)
 
     cases = []
     for _ in range(300 * scale):
@@ -571,8 +591,110 @@ def check_race(ctx, c0, live0, pause_at, first="peer", second="local"):
                  "ids", case=case, observed=obs)
 
 
+def abandon_case(c0, timeout=0.15):
+    """open_channel with its documented timeout= argument that runs out, next to a peer open that is still inside
+    the server callback (its id reserved, not yet registered), followed by two more local opens before the callback
+    returns.  Every id handed out must differ from the reserved one and from every open channel's; after the
+    callback returns all channels must be in the map as themselves."""
+    from paramiko.message import Message
+    d = Driver(c0, [])
+    t = d.t
+    t.active = True
+    answer = {"on": False}
+
+    def send_message(m):
+        raw = m.asbytes()
+        if raw[0] == 90 and answer["on"]:
+            q = Message(raw[1:])
+            q.get_text()
+            cid = q.get_int()
+            r = Message()
+            for v in (cid, d.remote_id(), 1 << 20, 1 << 15):
+                r.add_int(v)
+            r.rewind()
+            t._parse_channel_open_success(r)
+
+    t._send_message = send_message
+    res = {"timed_out": None, "late": [], "errors": []}
+
+    def slow_open():
+        try:
+            t.open_channel("session", timeout=timeout)
+            res["timed_out"] = "returned"
+        except Exception as e:  # noqa
+            res["timed_out"] = type(e).__name__
+
+    th = threading.Thread(target=slow_open, daemon=True)
+    th.start()
+    import time as _t
+    limit = _t.time() + 3.0
+    while t._channel_counter == c0 and _t.time() < limit:      # until the slow open has taken its id
+        _t.sleep(0.002)
+    first_id = c0
+
+    def inside_callback():
+        th.join(RACE_WD)                     # the slow open gives up while the peer open is pending
+        answer["on"] = True
+        for _ in range(2):
+            try:
+                res["late"].append(t.open_channel("session", timeout=RACE_WD))
+            except Exception as e:  # noqa
+                res["errors"].append(repr(e))
+
+    d.inner_fn = inside_callback
+    m = Message()
+    m.add_string("session")
+    m.add_int(d.remote_id())
+    m.add_int(1 << 20)
+    m.add_int(1 << 15)
+    m.rewind()
+    d.accept, d.inner, d.where, d.before, d.reserved = True, [], "abandon/peer", None, None
+    try:
+        t._parse_channel_open(m)
+    except Exception as e:  # noqa
+        res["errors"].append(repr(e))
+    p = d.reserved
+    late_ids = [ch.chanid for ch in res["late"]]
+    peer_chan = t._channels.get(p) if p is not None else None
+    obs = {"slow_open_id": first_id, "slow_open": res["timed_out"], "peer_reserved_id": p, "late_open_ids": late_ids,
+           "counter": t._channel_counter, "errors": res["errors"],
+           "late_in_map_as_themselves": [t._channels.get(ch.chanid) is ch for ch in res["late"]],
+           "peer_channel_in_map": peer_chan is not None and peer_chan not in res["late"]}
+    t.active = False
+    d.keep.update({("late", i): ch for i, ch in enumerate(res["late"])})
+    d.finish()
+    prob = None
+    if res["errors"] or p is None or len(late_ids) != 2:
+        prob = ("abandon-scenario-failed", "an open did not complete in the timed-out-open scenario")
+    elif p in late_ids or len(set(late_ids)) != 2:
+        prob = ("id-pending", "an id reserved for a peer-opened channel (still inside the server callback) was handed "
+                "out again to a local open after another open_channel(timeout=...) had timed out")
+    elif not all(obs["late_in_map_as_themselves"]) or not obs["peer_channel_in_map"]:
+        prob = ("race-map-wrong", "after the scenario the map does not hold every channel under its own id")
+    elif any(not (0 <= i < M24) for i in late_ids + [p]):
+        prob = ("id-out-of-range", "channel id does not fit in 24 bits")
+    return {"abandon": True, "c0": c0, "timeout": timeout}, obs, prob
+
+
+def abandon_runs(ctx):
+    for c0 in (M24 - 2, 0, ctx.rng.randrange(M24)):
+        case, obs, prob = abandon_case(c0)
+        ctx.count(("abandon", c0), kind="timed-out-open")
+        if prob:
+            ctx.fail(prob[0], prob[1], case=case, expected="fresh ids", observed=obs)
+
+
 def replay(ctx, rep):
     case = rep.get("case") or {}
+    if case.get("abandon"):
+        if ctx.proof is None:
+            ctx.prove()
+        c, obs, prob = abandon_case(case["c0"], case.get("timeout", 0.15))
+        ctx.count(("replay", repr(c)))
+        ctx.count(("replay2", repr(c)))
+        if prob:
+            ctx.fail(prob[0], prob[1], case=c, observed=obs)
+        return
     if case.get("race"):
         if ctx.proof is None:
             ctx.prove()
